@@ -7,6 +7,8 @@ import (
 	"encoding/hex"
 	"encoding/json"
 	"fmt"
+	"io"
+	"log"
 	"os"
 	"runtime"
 	"strings"
@@ -35,9 +37,35 @@ type Enc struct {
 	Key      string `json:"key"`
 	IKey     string `json:"ikey"`
 	UID      string `json:"uid"`
+	UExt     string `json:"uext"` // materialization of the unknown extensions (MCPrecert.tla UExts)
 }
 
-var defaultEnc = Enc{"small", "utc", "printable", "printable", "p256", "p256", "none"}
+var defaultEnc = Enc{"small", "utc", "printable", "printable", "p256", "p256", "none", "std"}
+
+// SctK is an SCT kind of MCPrecert.tla: which log, the form of the signature value, over what the log signed, whether
+// the SCT carries extensions.
+type SctK struct {
+	Log  string `json:"log"`
+	Form string `json:"form"`
+	Over string `json:"over"`
+	Ext  bool   `json:"ext"`
+}
+
+func (k SctK) String() string {
+	l := logTable[k.Log]
+	e := ""
+	if k.Ext {
+		e = "+ext"
+	}
+	return fmt.Sprintf("%s-%s-%s/%s/%s%s", l.Scheme, l.Key, l.Hash, k.Form, k.Over, e)
+}
+
+// Verdict is the specification's verdict on one SCT: through ctutil.VerifySCT as it stands (plain) and through a
+// verifier built with the opt-in to keys outside RFC 6962 2.1.4 (optin).
+type Verdict struct {
+	Plain bool `json:"plain"`
+	Optin bool `json:"optin"`
+}
 
 // C is the case of MCPrecert.tla.
 type C struct {
@@ -48,7 +76,7 @@ type C struct {
 	PreAKI string   `json:"preAki"`
 	PreEKU bool     `json:"preEku"`
 	Enc    Enc      `json:"enc"`
-	SCTs   []string `json:"scts"`
+	SCTs   []SctK   `json:"scts"`
 }
 
 // Pre is the abstract pre-issuer.
@@ -80,6 +108,8 @@ type Case struct {
 	Clause     string `json:"clause"`
 	Chain      EntryX `json:"chain"`
 	Embedded   EntryX `json:"embedded"`
+	SctChain   []Verdict `json:"sctchain"` // per SCT of c.scts: does it verify for the precertificate route's entry
+	SctEmb     []Verdict `json:"sctemb"`   // ... for the embedded route's entry
 	Mat        *Enc   `json:"mat,omitempty"` // materialization chosen by the harness for the default tags (replay)
 }
 
@@ -114,13 +144,16 @@ func (c *Case) remap(e Enc) {
 }
 
 var (
-	encSerials    = []string{"small", "zero", "neg", "long20", "long21"}
+	encSerials = []string{"small", "zero", "neg", "long20", "long21", "p127", "p128", "p255", "p256", "p32768", "max20", "m1", "m127", "m128",
+		"m255", "m256", "m32768", "m32769", "min20", "min20p1", "neg21"}
 	encValidities = []string{"utc", "utc50", "utcgen", "gengen"}
 	encINames     = []string{"printable", "utf8", "t61", "bmp", "multirdn", "utf8sp"}
 	encSNames     = []string{"printable", "utf8", "t61", "bmp", "multirdn", "utf8sp", "empty"}
 	encKeys       = []string{"p256", "p256", "p384", "rsa2048", "ed25519"}
 	encIKeys      = []string{"p256", "p256", "p256", "p384", "rsa2048", "ed25519"}
 	encUIDs       = []string{"none", "none", "iss", "subj", "both", "issempty"}
+	encUExts      = []string{"std", "std", "std", "std", "joint", "a0", "a127", "a128", "a16383", "a16384", "a2097151", "a2097152", "a268435455",
+		"a268435456", "amax", "l0", "l1", "l127", "l128", "l255", "l256"}
 )
 
 // ---------------------------------------------------------------- hierarchy
@@ -134,6 +167,7 @@ type hier struct {
 type world struct {
 	keys  *Keys
 	cache map[string]*hier
+	ver   map[string]*ct.SignatureVerifier // per log: a verifier built with the opt-in to non-compliant keys
 }
 
 func parse(der []byte) (*x509.Certificate, error) {
@@ -191,54 +225,60 @@ func (w *world) hierarchy(ikey, iname, preAki string, preEku, withPI bool) *hier
 // ---------------------------------------------------------------- SCTs
 
 type sctRec struct {
-	kind  string
+	kind  SctK
 	log   string
+	hash  byte // RFC 5246 hash code of the signature
 	ts    uint64
 	ext   []byte
 	ds    []byte // DigitallySigned bytes
 	bytes []byte // serialized SCT (independent encoder)
 	lib   *ct.SignedCertificateTimestamp
-	good  bool
 }
 
-func (w *world) makeSCT(kind string, idx int, entry ref.Entry, wrongIKH []byte) *sctRec {
-	r := &sctRec{kind: kind, log: "LOG1", ts: 1700000000000 + uint64(idx)*1000, good: true}
+// makeSCT plays the log: it signs the RFC 6962 3.2 signature input of the entry (or of another entry, kind.Over) with
+// the log's key and hash function and delivers the signature value in the form kind.Form.
+func (w *world) makeSCT(kind SctK, idx int, entry ref.Entry, wrongIKH []byte) *sctRec {
+	li, ok := logTable[kind.Log]
+	if !ok {
+		panic("harness: log " + kind.Log)
+	}
+	r := &sctRec{kind: kind, log: kind.Log, ts: 1700000000000 + uint64(idx)*1000, hash: hashCodes[li.Hash]}
 	over := entry
-	switch kind {
-	case "good":
-	case "good2":
-		r.log = "LOG2"
-	case "ext":
+	if kind.Ext {
 		r.ext = []byte{0xde, 0xad, 0xbe, 0xef, 0x00}
+	}
+	switch kind.Over {
+	case "this":
 	case "othertbs": // the log signed another TBSCertificate (one byte of the serial differs)
-		r.good = false
 		o := append([]byte{}, entry.TBS...)
 		i := bytes.Index(o, []byte{0x02, 0x01, 0x02}) // version INTEGER 2, the serial follows
 		o[i+5] ^= 0x01
 		over.TBS = o
 	case "otherikh": // ... or the same TBS under another issuer key hash
-		r.good = false
 		over.IssuerKeyHash = wrongIKH
 	default:
-		panic("sct kind " + kind)
+		panic("harness: sct over " + kind.Over)
 	}
 	key := w.keys.Log(r.log)
-	ds, err := ref.Sign(key, ref.SCTSignatureInput(r.ts, over, r.ext))
-	if err != nil {
-		panic(err)
+	msg := ref.SCTSignatureInput(r.ts, over, r.ext)
+	sigCode, value := signLog(key, li.Hash, msg)
+	if !stdVerifies(key.Public(), li.Hash, msg, value) {
+		panic("harness: std crypto does not verify the log's own signature")
 	}
-	r.ds = ds
+	sig := sigForm(kind.Form, li.Scheme, value, key, li.Hash)
+	r.ds = ref.DigitallySigned(r.hash, sigCode, sig)
 	id, _, err := ref.KeyID(key.Public())
 	if err != nil {
 		panic(err)
 	}
-	r.bytes = ref.SCT(id, r.ts, r.ext, ds)
-	_, sigAlg, sig, _ := ref.ParseDigitallySigned(ds)
+	r.bytes = ref.SCT(id, r.ts, r.ext, r.ds)
 	r.lib = &ct.SignedCertificateTimestamp{SCTVersion: ct.V1, Timestamp: r.ts, Extensions: r.ext,
-		Signature: ct.DigitallySigned{Algorithm: cttls.SignatureAndHashAlgorithm{Hash: cttls.SHA256, Signature: cttls.SignatureAlgorithm(sigAlg)}, Signature: sig}}
+		Signature: ct.DigitallySigned{Algorithm: cttls.SignatureAndHashAlgorithm{Hash: cttls.HashAlgorithm(r.hash), Signature: cttls.SignatureAlgorithm(sigCode)}, Signature: sig}}
 	copy(r.lib.LogID.KeyID[:], id)
 	return r
 }
+
+var plainG = SctK{"LOG1", "exact", "this", false}
 
 // ---------------------------------------------------------------- running one case
 
@@ -300,9 +340,68 @@ func (r *runner) checkBytes(site string, got []byte, err error, want *TBS, m *Ma
 	exp := m.TBSBytes(want)
 	r.rep.Add("tbs_byte_comparisons", 1)
 	if !bytes.Equal(got, exp) {
-		r.violate(site+":bytes", fmt.Sprintf("%s: result differs from the independently built TBSCertificate at byte %d (got %d bytes, want %d)\n got  %x\n want %x",
-			site, firstDiff(got, exp), len(got), len(exp), got, exp))
+		r.violate(site+":bytes", fmt.Sprintf("%s: result differs from the independently built TBSCertificate at byte %d, first in: %s (got %d bytes, want %d)\n got  %x\n want %x",
+			site, firstDiff(got, exp), whichField(got, exp), len(got), len(exp), clip(got), clip(exp)))
 	}
+}
+
+// whichField names the first TBSCertificate field in which got differs from want (diagnostics only).
+func whichField(got, want []byte) string {
+	w, err := ref.SplitTBS(want)
+	if err != nil {
+		return "?"
+	}
+	g, err := ref.SplitTBS(got)
+	if err != nil {
+		return "the result is not a DER TBSCertificate (" + err.Error() + ")"
+	}
+	names := func(parts [][]byte, ns []string) []string {
+		if len(parts) < len(ns) { // no version element
+			return ns[len(ns)-len(parts):]
+		}
+		return ns
+	}
+	cmp := func(a, b [][]byte, ns []string) string {
+		for i := range b {
+			n := fmt.Sprintf("element %d", i)
+			if i < len(ns) {
+				n = ns[i]
+			}
+			if i >= len(a) || !bytes.Equal(a[i], b[i]) {
+				return n
+			}
+		}
+		if len(a) != len(b) {
+			return "number of elements"
+		}
+		return ""
+	}
+	if f := cmp(g.Pre, w.Pre, names(w.Pre, []string{"version", "serialNumber", "signature"})); f != "" {
+		return f
+	}
+	if !bytes.Equal(g.Issuer, w.Issuer) {
+		return "issuer"
+	}
+	if f := cmp(g.Mid, w.Mid, []string{"validity", "subject", "subjectPublicKeyInfo", "uniqueID", "uniqueID"}); f != "" {
+		return f
+	}
+	for i := range w.Exts {
+		if i >= len(g.Exts) || !bytes.Equal(g.Exts[i], w.Exts[i]) {
+			return fmt.Sprintf("extension %d", i)
+		}
+	}
+	if len(g.Exts) != len(w.Exts) {
+		return "number of extensions"
+	}
+	return "an enclosing length"
+}
+
+// clip keeps messages about 64 KB certificates readable.
+func clip(b []byte) []byte {
+	if len(b) > 2048 {
+		return b[:2048]
+	}
+	return b
 }
 
 func firstDiff(a, b []byte) int {
@@ -397,8 +496,8 @@ func (r *runner) checkLeaf(site string, leaf *ct.MerkleTreeLeaf, err error, want
 		r.violate(site+":issuer-key-hash", site+": issuer_key_hash is not the SHA-256 of the final issuer's SubjectPublicKeyInfo")
 	}
 	if !bytes.Equal(te.PrecertEntry.TBSCertificate, want.TBS) {
-		r.violate(site+":tbs", fmt.Sprintf("%s: tbs_certificate differs from the independently built one at byte %d\n got  %x\n want %x",
-			site, firstDiff(te.PrecertEntry.TBSCertificate, want.TBS), te.PrecertEntry.TBSCertificate, want.TBS))
+		r.violate(site+":tbs", fmt.Sprintf("%s: tbs_certificate differs from the independently built one at byte %d, first in: %s\n got  %x\n want %x",
+			site, firstDiff(te.PrecertEntry.TBSCertificate, want.TBS), whichField(te.PrecertEntry.TBSCertificate, want.TBS), clip(te.PrecertEntry.TBSCertificate), clip(want.TBS)))
 	}
 	if b, err := cttls.Marshal(*leaf); err != nil || !bytes.Equal(b, ref.MerkleTreeLeaf(ts, want, nil)) {
 		r.violate(site+":leaf-bytes", fmt.Sprintf("%s: serialized MerkleTreeLeaf differs from RFC 6962 3.4 (%v)", site, err))
@@ -425,7 +524,7 @@ func (r *runner) run() {
 	c := cs.C
 	withPI := c.Mode == "pre"
 	h := r.w.hierarchy(cs.T.Sig, c.Enc.IName, c.PreAKI, c.PreEKU, withPI)
-	m := &Mat{Keys: r.w.keys}
+	m := &Mat{Keys: r.w.keys, UExt: c.Enc.UExt}
 	tDER := m.TBSBytes(&cs.T)
 	r.ders = map[string]string{"tbs": hex.EncodeToString(tDER), "ca": hex.EncodeToString(h.ca), "root": hex.EncodeToString(h.root)}
 	if withPI {
@@ -541,18 +640,14 @@ func (r *runner) run() {
 			npoison++
 		}
 	}
+	if chainOK && len(cs.SctChain) != len(scts) {
+		panic("harness: the case carries no verdicts for its SCTs (sctchain)")
+	}
 	if chainC != nil && npoison > 0 {
 		if chainOK {
 			for i, s := range scts {
-				site := "VerifySCT(precert)"
-				r.guard(site, func() {
-					err := ctutil.VerifySCT(r.w.keys.Log(s.log).Public(), chainC, s.lib, false)
-					if (err == nil) != s.good {
-						r.violate(fmt.Sprintf("%s:%s", site, s.kind), fmt.Sprintf("%s: SCT %d (%s) verifies=%v, the log signed this precertificate's entry=%v (%v)", site, i, s.kind, err == nil, s.good, err))
-					}
-					if err := ctutil.VerifySCT(r.w.keys.Log("LOGX").Public(), chainC, s.lib, false); err == nil {
-						r.violate(site+":otherlog", site+": SCT verifies under another log's key")
-					}
+				r.verifySCT("VerifySCT(precert)", i, s, chainC, false, cs.SctChain[i])
+				r.guard("LeafHash(precert)", func() {
 					got, err := ctutil.LeafHash(chainC, s.lib, false)
 					if err != nil || got != leafHash(s.ts, wantChain, nil) {
 						r.violate("LeafHash(precert)", fmt.Sprintf("ctutil.LeafHash for the precertificate chain is not SHA-256(0x00 || MerkleTreeLeaf) of the independent entry (%v)", err))
@@ -561,7 +656,7 @@ func (r *runner) run() {
 			}
 		} else {
 			r.guard("VerifySCT(precert)", func() {
-				dummy := r.w.makeSCT("good", 0, ref.Entry{Type: ref.PrecertEntry, IssuerKeyHash: wrongIKH, TBS: tDER}, wrongIKH)
+				dummy := r.w.makeSCT(plainG, 0, ref.Entry{Type: ref.PrecertEntry, IssuerKeyHash: wrongIKH, TBS: tDER}, wrongIKH)
 				if err := ctutil.VerifySCT(r.w.keys.Log("LOG1").Public(), chainC, dummy.lib, false); err == nil {
 					r.violate("VerifySCT(precert):accepted", "VerifySCT succeeds for a precertificate for which no entry exists")
 				}
@@ -624,29 +719,28 @@ func (r *runner) run() {
 			}
 		}
 	})
+	if embOK && len(cs.SctEmb) != len(scts) {
+		panic("harness: the case carries no verdicts for its SCTs (sctemb)")
+	}
 	for i, s := range scts {
-		site := "VerifySCT(embedded)"
-		r.guard(site, func() {
-			err := ctutil.VerifySCT(r.w.keys.Log(s.log).Public(), chainF, s.lib, true)
-			want := s.good && embOK
-			r.rep.Add(fmt.Sprintf("embedded_sct_expected_valid_%v", want), 1)
-			if (err == nil) != want {
-				r.violate(fmt.Sprintf("%s:%s", site, s.kind), fmt.Sprintf("%s: embedded SCT %d (%s) verifies=%v, the log signed the corresponding precertificate entry=%v (%v)", site, i, s.kind, err == nil, want, err))
-			}
-			if err := ctutil.VerifySCT(r.w.keys.Log("LOGX").Public(), chainF, s.lib, true); err == nil {
-				r.violate(site+":otherlog", site+": embedded SCT verifies under another log's key")
-			}
-			if embOK {
+		want := Verdict{}
+		if embOK {
+			want = cs.SctEmb[i]
+		}
+		r.rep.Add(fmt.Sprintf("embedded_sct_expected_valid_%v", want.Optin), 1)
+		r.verifySCT("VerifySCT(embedded)", i, s, chainF, true, want)
+		if embOK {
+			r.guard("LeafHash(embedded)", func() {
 				got, err := ctutil.LeafHash(chainF, s.lib, true)
 				if err != nil || got != leafHash(s.ts, wantEmb, nil) {
 					r.violate("LeafHash(embedded)", fmt.Sprintf("ctutil.LeafHash for the final certificate is not the leaf hash of the precertificate entry (%v)", err))
 				}
-			}
-		})
+			})
+		}
 	}
 	r.guard("VerifySCT(embedded)", func() {
 		// a perfectly valid SCT of the same log for the same entry that is not in the list is "not embedded"
-		other := r.w.makeSCT("good", 17, wantChain, wrongIKH)
+		other := r.w.makeSCT(plainG, 17, wantChain, wrongIKH)
 		if err := ctutil.VerifySCT(r.w.keys.Log("LOG1").Public(), chainF, other.lib, true); err == nil {
 			r.violate("VerifySCT(embedded):not-embedded", "an SCT that is not in the certificate is accepted as embedded")
 		}
@@ -673,9 +767,37 @@ func (r *runner) run() {
 	r.rep.Eval(r.key())
 }
 
+// verifySCT compares the code's verdicts on one SCT with the specification's: ctutil.VerifySCT as it stands (a
+// verifier for a key outside RFC 6962 2.1.4 is refused) and ctutil.VerifySCTWithVerifier with a verifier that was
+// built under the opt-in; never under another log's key.
+func (r *runner) verifySCT(site string, i int, s *sctRec, chain []*x509.Certificate, embedded bool, want Verdict) {
+	r.guard(site, func() {
+		pub := r.w.keys.Log(s.log).Public()
+		err := ctutil.VerifySCT(pub, chain, s.lib, embedded)
+		r.rep.Add("sct_verdicts_"+s.kind.Form, 1)
+		if (err == nil) != want.Plain {
+			r.violate(fmt.Sprintf("%s:%s", site, s.kind), fmt.Sprintf("%s: SCT %d (%s) verifies=%v, the specification says %v: the log signed this entry and delivered a signature value = %v, RFC 6962 2.1.4 key = %v (%v)",
+				site, i, s.kind, err == nil, want.Plain, want.Optin, logTable[s.log].Compliant, err))
+		}
+		// (for a key of RFC 6962 2.1.4 ctutil.VerifySCT is NewSignatureVerifier + VerifySCTWithVerifier: the same path)
+		if v := r.w.ver[s.log]; v != nil && !logTable[s.log].Compliant {
+			err := ctutil.VerifySCTWithVerifier(v, chain, s.lib, embedded)
+			if (err == nil) != want.Optin {
+				r.violate(fmt.Sprintf("%s:optin:%s", site, s.kind), fmt.Sprintf("%s (verifier with opt-in): SCT %d (%s) verifies=%v, the log signed this entry and delivered a signature value=%v (%v)",
+					site, i, s.kind, err == nil, want.Optin, err))
+			}
+		}
+		if i == 0 || s.kind.Form != "exact" {
+			if err := ctutil.VerifySCT(r.w.keys.Log("LOGX").Public(), chain, s.lib, embedded); err == nil {
+				r.violate(site+":otherlog", site+": SCT verifies under another log's key")
+			}
+		}
+	})
+}
+
 func (r *runner) key() string {
 	c := r.cs.C
-	return fmt.Sprintf("%s/%s/%s/%v/%s/%+v/%d", strings.Join(c.Layout, ","), c.Crit, c.Mode, c.PreEKU, c.PreAKI, c.Enc, len(c.SCTs))
+	return fmt.Sprintf("%s/%s/%s/%v/%s/%+v/%v", strings.Join(c.Layout, ","), c.Crit, c.Mode, c.PreEKU, c.PreAKI, c.Enc, c.SCTs)
 }
 
 func (r *runner) sameSCTs(site string, got []*ct.SignedCertificateTimestamp, err error, want []*sctRec) {
@@ -692,7 +814,7 @@ func (r *runner) sameSCTs(site string, got []*ct.SignedCertificateTimestamp, err
 		id, _, _ := ref.KeyID(r.w.keys.Log(w.log).Public())
 		_, sa, sig, _ := ref.ParseDigitallySigned(w.ds)
 		if g == nil || g.SCTVersion != ct.V1 || !bytes.Equal(g.LogID.KeyID[:], id) || g.Timestamp != w.ts || !bytes.Equal(g.Extensions, w.ext) ||
-			byte(g.Signature.Algorithm.Hash) != ref.HashSHA256 || byte(g.Signature.Algorithm.Signature) != sa || !bytes.Equal(g.Signature.Signature, sig) {
+			byte(g.Signature.Algorithm.Hash) != w.hash || byte(g.Signature.Algorithm.Signature) != sa || !bytes.Equal(g.Signature.Signature, sig) {
 			r.violate(site+":element", fmt.Sprintf("%s: element %d is not the %d-th embedded SCT", site, i, i))
 			return
 		}
@@ -744,7 +866,7 @@ func (r *runner) sctListChecks(scts []*sctRec) {
 func pick(rng interface{ Intn(int) int }, xs []string) string { return xs[rng.Intn(len(xs))] }
 
 // runAll executes the cases on all cores; rounds > 1 replays them again under other materializations.
-func runAll(t *testing.T, path string, rep *vh.Report, keys *Keys, rounds int, randomize bool) int {
+func runAll(t *testing.T, path string, rep *vh.Report, keys *Keys, ver map[string]*ct.SignatureVerifier, rounds int, randomize bool) int {
 	n := 0
 	for round := 0; round < rounds; round++ {
 		cases, err := vh.LoadNDJSON[Case](path)
@@ -762,7 +884,7 @@ func runAll(t *testing.T, path string, rep *vh.Report, keys *Keys, rounds int, r
 			}
 			if randomize && cs.C.Enc == defaultEnc && (round > 0 || rng.Intn(3) > 0) {
 				e := Enc{pick(rng, encSerials), pick(rng, encValidities), pick(rng, encINames), pick(rng, encSNames),
-					pick(rng, encKeys), pick(rng, encIKeys), pick(rng, encUIDs)}
+					pick(rng, encKeys), pick(rng, encIKeys), pick(rng, encUIDs), pick(rng, encUExts)}
 				cs.Mat = &e
 				cs.remap(e)
 			}
@@ -773,7 +895,7 @@ func runAll(t *testing.T, path string, rep *vh.Report, keys *Keys, rounds int, r
 			wg.Add(1)
 			go func() {
 				defer wg.Done()
-				w := &world{keys: keys, cache: map[string]*hier{}}
+				w := &world{keys: keys, cache: map[string]*hier{}, ver: ver}
 				for i := range ch {
 					r := &runner{w: w, rep: rep, cs: &cases[i], idx: i}
 					func() {
@@ -802,6 +924,24 @@ func runAll(t *testing.T, path string, rep *vh.Report, keys *Keys, rounds int, r
 	return n
 }
 
+// optInVerifiers builds one ct.SignatureVerifier per log with the process-wide opt-in to keys outside RFC 6962 2.1.4
+// switched on, and switches it off again: before anything runs in parallel, so ctutil.VerifySCT is observed in its
+// default state throughout.
+func optInVerifiers(rep *vh.Report, keys *Keys) map[string]*ct.SignatureVerifier {
+	out := map[string]*ct.SignatureVerifier{}
+	ct.AllowVerificationWithNonCompliantKeys = true
+	defer func() { ct.AllowVerificationWithNonCompliantKeys = false }()
+	for name, li := range logTable {
+		v, err := ct.NewSignatureVerifier(keys.Log(name).Public())
+		if err != nil {
+			rep.Violate("NewSignatureVerifier:optin:"+li.Scheme+"-"+li.Key, fmt.Sprintf("no verifier for a %s log key although the caller opted in to keys outside RFC 6962 2.1.4: %v", li.Key, err), nil)
+			continue
+		}
+		out[name] = v
+	}
+	return out
+}
+
 // TestReplay materializes every case exported by MCPrecert (VERIF_CASES) and compares the repository's
 // functions with the specification's expected results.
 func TestReplay(t *testing.T) {
@@ -809,9 +949,22 @@ func TestReplay(t *testing.T) {
 	if path == "" {
 		t.Skip("VERIF_CASES not set")
 	}
-	rep := vh.NewReport("c03-replay", "every case of MCPrecert.tla (extension layout x criticality x issuer mode x AKI presence x field encodings x SCT list) is DER-encoded by the harness' own builder, signed with real keys and run through BuildPrecertTBS/RemoveCTPoison/RemoveSCTList, MerkleTreeLeafFromChain/FromRawChain/ForEmbeddedSCT, VerifySCT, LeafHash and the SCT list helpers; results compared byte for byte with the builder applied to the model's expected abstract TBS; non-trivial = distinct (case, materialization)")
+	rep := vh.NewReport("c03-replay", "every case of MCPrecert.tla (extension layout x criticality x issuer mode x AKI presence x field encodings incl. serial numbers by value and unknown-extension identifiers / lengths at the DER boundaries x SCT list of kinds log key / hash x signature form x signed entry) is DER-encoded by the harness' own builder, signed with real keys and run through BuildPrecertTBS/RemoveCTPoison/RemoveSCTList, MerkleTreeLeafFromChain/FromRawChain/ForEmbeddedSCT, VerifySCT / VerifySCTWithVerifier, LeafHash and the SCT list helpers; results compared byte for byte with the builder applied to the model's expected abstract TBS, SCT verdicts with the model's; non-trivial = distinct (case, materialization)")
+	log.SetOutput(io.Discard) // the library logs a line per non-compliant key and per trailing octet string
 	keys := NewKeys()
-	rep.Replayed = runAll(t, path, rep, keys, vh.EnvInt("VERIF_ROUNDS", 1), os.Getenv("VERIF_RANDOMIZE") != "0")
+	ver := optInVerifiers(rep, keys)
+	// the specification's DER primitives against the harness' own materialization
+	if dp := os.Getenv("VERIF_DER"); dp != "" {
+		tabs, err := vh.LoadNDJSON[DERTable](dp)
+		if err != nil || len(tabs) != 1 {
+			t.Fatalf("DER table: %v (%d records)", err, len(tabs))
+		}
+		if err := CheckDERTable(&tabs[0]); err != nil {
+			t.Fatalf("the specification's DER primitives and the harness' builder disagree: %v", err)
+		}
+		rep.Add("der_table_entries_checked", len(tabs[0].Serials)+len(tabs[0].Lens)+len(tabs[0].Arcs)+len(tabs[0].Logs))
+	}
+	rep.Replayed = runAll(t, path, rep, keys, ver, vh.EnvInt("VERIF_ROUNDS", 1), os.Getenv("VERIF_RANDOMIZE") != "0")
 	if err := rep.Write(); err != nil {
 		t.Fatal(err)
 	}
@@ -823,7 +976,7 @@ func TestReplay(t *testing.T) {
 		}
 		for i := range canaries {
 			crep := vh.NewReport("canary", "")
-			w := &world{keys: keys, cache: map[string]*hier{}}
+			w := &world{keys: keys, cache: map[string]*hier{}, ver: ver}
 			r := &runner{w: w, rep: crep, cs: &canaries[i], idx: i}
 			flagged := false
 			func() {
